@@ -200,6 +200,19 @@ class Lib:
             yield from recv.sym_method(ip, st, name, args, kwargs)
             return
         f = METHODS.get((k, name))
+        if f is None and k in ("int", "str", "bytes", "tuple") and not is_sym(recv) and isinstance(recv, (int, str, bytes, tuple)) \
+                and not isinstance(recv, bool) and hasattr(type(recv), name) \
+                and all(not is_sym(a) and (a is None or isinstance(a, (int, str, bytes, bool))) for a in list(args) + list(kwargs.values())):
+            # a method of an immutable builtin value on concrete arguments: CPython itself computes it
+            try:
+                r = getattr(recv, name)(*args, **kwargs)
+            except Exception as e:      # noqa
+                yield st, Raise(mk_exc(st, type(e).__name__, str(e)))
+                return
+            if isinstance(r, list):
+                r = st.new_list(r)
+            yield st, r
+            return
         if f is None:
             if k in ("int", "bool", "str", "bytes", "pylist", "pydict", "tuple", "jdict", "jlist", "symlist", "none"):
                 known = {m for (kk, m) in METHODS if kk == k}
